@@ -702,7 +702,10 @@ fn print_case(ctx: &mut Ctx, base: &Xstate) {
 }
 
 /// non-default flags: the printer is modelled in every base; reading back is only claimed for the default
-fn print_flags_case(ctx: &mut Ctx, base: &Xstate) {
+/// failures of the known non-invertible class are returned (not reported) so that `run` can report them
+/// after everything else: the evidence keeps only the first 50 failures and an unexpected one must not be
+/// crowded out by the recorded finding
+fn print_flags_case(ctx: &mut Ctx, base: &Xstate, deferred: &mut Vec<(String, String, String)>) {
     let (raw, v) = {
         let r = &mut ctx.rng;
         let bases = [2usize, 8, 10, 16, 3, 0, 36];
@@ -746,11 +749,20 @@ fn print_flags_case(ctx: &mut Ctx, base: &Xstate) {
                 if !same {
                     ctx.tag(if known { "print:flags:rt-fail-known" } else { "print:flags:rt-fail-UNEXPECTED" });
                 }
-                ctx.check(same, case, || canon::cell(v.value()), || canon::cell(&st[0]));
+                if !same && known {
+                    deferred.push((case(), canon::cell(v.value()), canon::cell(&st[0])));
+                } else {
+                    ctx.check(same, case, || canon::cell(v.value()), || canon::cell(&st[0]));
+                }
             }
             other => {
                 ctx.tag(if known { "print:flags:rt-fail-known" } else { "print:flags:rt-fail-UNEXPECTED" });
-                ctx.oracle_fail(case(), "evaluates to exactly one equal value".into(), format!("{:?}", other.map(|x| (x.0.err().map(|e| canon::err(&e)), canon::stack_str(&x.1)))))
+                let obs = format!("{:?}", other.map(|x| (x.0.err().map(|e| canon::err(&e)), canon::stack_str(&x.1))));
+                if known {
+                    deferred.push((case(), "evaluates to exactly one equal value".into(), obs));
+                } else {
+                    ctx.oracle_fail(case(), "evaluates to exactly one equal value".into(), obs)
+                }
             }
         }
     }
@@ -942,8 +954,9 @@ pub fn run(ctx: &mut Ctx) {
     for _ in 0..n / 4 {
         print_case(ctx, &base);
     }
+    let mut deferred: Vec<(String, String, String)> = Vec::new();
     for _ in 0..n / 8 {
-        print_flags_case(ctx, &base);
+        print_flags_case(ctx, &base, &mut deferred);
     }
     // locations
     for t in ["a", "a\n", "\n", "\r\n", "a\r\nb", "a\rb", "é\tb\n日x", "ab", "\r", "x\n\ry"] {
@@ -967,5 +980,9 @@ pub fn run(ctx: &mut Ctx) {
         let ends: Vec<usize> = bounds.iter().cloned().filter(|e| *e >= off).collect();
         let end = if ctx.rng.chance(30) { off } else { ends[ctx.rng.below(ends.len().min(4))] };
         loc_case(ctx, &text, off, end - off);
+    }
+    // last: the failures of the recorded non-default-format finding
+    for (case, exp, obs) in deferred {
+        ctx.oracle_fail(case, exp, obs);
     }
 }
